@@ -152,7 +152,7 @@ def _transpose_step(step, interval, direction):
     inverval
 
     """
-    op = lambda x, y: abs(x + y) % 7 if direction == "up" else abs(x - y) % 7
+    op = lambda x, y: (x + y) % 7 if direction == "up" else (x - y) % 7
     if interval == "P1":
         pass
     else:
